@@ -130,8 +130,16 @@ void vh_viol(const char *key, const char *fmt, ...)
 	va_end(ap);
 	for (i = 0; buf[i]; i++) if (buf[i] == '\n' || buf[i] == '\r') buf[i] = ' ';
 	vh_nviol++;
-	if (vh_nviol <= 200)
-		printf("VIOL %s case=%ld %s\n", key, vh_cur_case, buf);
+	{
+		/* print at most 4 witnesses per distinct key so a frequent (known) finding cannot crowd out a new key */
+		static struct { char key[96]; int n; } seen[128];
+		static int nseen;
+		int k;
+		for (k = 0; k < nseen; k++) if (!strncmp(seen[k].key, key, sizeof(seen[k].key) - 1)) break;
+		if (k == nseen && nseen < 128) { snprintf(seen[nseen].key, sizeof(seen[nseen].key), "%s", key); seen[nseen].n = 0; nseen++; }
+		if (k < 128 && seen[k].n++ < 4)
+			printf("VIOL %s case=%ld %s\n", key, vh_cur_case, buf);
+	}
 }
 
 void vh_sample(int max, const char *fmt, ...)
